@@ -45,7 +45,8 @@ class Runaway(BaseException):
     that no `except` clause of the code under test swallows it)"""
 
 
-EVENT_BUDGET = 400000
+EVENT_BUDGET = 200000
+OP_BUDGET = 5000
 
 
 # --------------------------------------------------------------------------------------------------------------
@@ -250,6 +251,8 @@ class H2Drive:
         return t.get_name() if t is not None else "?"
 
     def rec(self, *a: Any) -> None:
+        if self.runaway:
+            return
         self.log.append([self.me(), *a])
         if len(self.log) > EVENT_BUDGET:
             self.runaway = True
@@ -305,6 +308,11 @@ class H2Drive:
         for k in ("i", "p"):
             if k in op:
                 self.note_id(op[k])
+        if self.runaway:
+            return                      # already reported; the rest of the run is not recorded
+        if len(self.ops) > OP_BUDGET:
+            self.runaway = True
+            raise Runaway(f"more than {OP_BUDGET} ops; last: {self.ops[-3:]}")
         self.snaps.append(self.snapshot())
         self.ops.append(op)
         self.log.append([self.me(), "OP", op])
@@ -781,7 +789,7 @@ class H2Drive:
                         self.turns += 1
                     continue
                 await self.sched.point("client")
-                if self.reader_error:
+                if self.reader_error or self.runaway:
                     break
                 if k == "open":
                     sid = act["sid"]
@@ -942,6 +950,8 @@ class H2Drive:
         apps = {}
         for sid, st in self.app_state.items():
             apps[str(sid)] = {"sends": [dict(s) for s in st["sends"]], "accepted": st["accepted"], "written": st["written"], "puts": list(st["puts"]), "done": st["done"]}
+        if self.runaway:                 # keep the evidence small: the run is reported as `spinning`, not replayed through the model
+            self.ops, self.snaps = self.ops[-40:], self.snaps[-41:]
         return {"ops": self.ops, "snaps": self.snaps, "ids": list(self.ids), "quiescent": quiescent, "client": {"streams": streams, "error": cl.error, "goaway": cl.goaway},
                 "ledger": {"violations": self.ledger.violations, "payload": {k: bytes(v) for k, v in self.ledger.payload.items()}, "data": dict(self.ledger.data), "end": dict(self.ledger.end_stream), "rst": dict(self.ledger.rst),
                            "headers": dict(self.ledger.headers), "data_after_end": list(self.ledger.data_after_end), "frames": {k: list(v) for k, v in self.ledger.frames.items()},
@@ -1009,6 +1019,8 @@ def model_request(res: dict) -> dict:
     """the driver request replaying the reconstructed op list (lean/Driver/H2Send.lean); the model starts from the
     connection window / frame size in force when the first op was taken (after the settings exchange)"""
     s0 = res["snaps"][0]
+    if res.get("runaway"):
+        return {"cmd": "h2send.run", "connWin": 65535, "maxFrame": 16384, "ids": [], "ops": []}
     return {"cmd": "h2send.run", "connWin": s0["connWin"], "maxFrame": s0["maxFrame"], "ids": res["ids"], "ops": res["ops"]}
 
 
@@ -1019,6 +1031,8 @@ def task_norm(t: Any) -> Any:
 def compare(res: dict, model: dict) -> Optional[dict]:
     """trace acceptance: every op taken by the real code is enabled in the model, and the model state after each op
     equals the projection of the real state; returns the first difference (None = accepted)"""
+    if res.get("runaway"):
+        return None                     # reported by the monitors (`spinning`); the truncated trace is not comparable
     if "ok" not in model:
         return {"at": -1, "what": "driver error", "detail": model}
     steps = model["ok"]["steps"]
